@@ -58,7 +58,7 @@ def check(modname, fnname, timeout):
     mod, fn = _load(modname, fnname)
     from crosshair import core
     from crosshair.core_and_libs import analyze_function, run_checkables
-    from crosshair.options import AnalysisOptionSet
+    from crosshair.options import AnalysisOptionSet, AnalysisKind
     from crosshair.statespace import MessageType, VerificationStatus
     from vpx import params
 
@@ -85,6 +85,9 @@ def check(modname, fnname, timeout):
         per_condition_timeout=float(timeout),
         per_path_timeout=float(params.param('path_timeout', max(10.0, float(timeout) ** 0.5))),
         report_all=True, stats=stats,
+        # PEP316 docstrings only: otherwise functions of the code under test that merely *start
+        # with an assert* (e.g. FindCache.add) are treated as contracts and wrapped/short-circuited
+        analysis_kind=[AnalysisKind.PEP316],
     )
     out = {'module': modname, 'fn': fnname, 'params': params.P}
     try:
